@@ -10,6 +10,7 @@ import (
 	"fmt"
 	"strings"
 	"sync"
+	"time"
 )
 
 // Event kinds.
@@ -24,6 +25,7 @@ const (
 	evSrvAccept    = "srv-accept"    // Output, Attempt, Note = mode
 	evSrvChunk     = "srv-chunk"     // Output, Attempt, ChunkID, Tag, Stamps (decoded), Chunk (index into the server log)
 	evSrvAck       = "srv-ack"       // Output, Attempt, ChunkID, Note = ok|wrong
+	evSrvAckTry    = "srv-ack-try"   // Output, Attempt, ChunkID: logged before the ACK is written
 	evSrvPing      = "srv-ping"      // Output, Attempt
 	evSrvClose     = "srv-close"     // Output, Attempt, Note = eof|reset|refuse|error
 	evDisk         = "disk"          // Output, Pipeline, ChunkID, Stamps (one per queue file after a stop)
@@ -56,21 +58,24 @@ type e2eEvent struct {
 	Chunk    int
 	N        int
 	Note     string
+	T        int64 // microseconds since the trace was created (diagnostics only; never part of a projection)
 }
 
 // e2eTrace is the totally ordered event log.
 type e2eTrace struct {
 	mu     sync.Mutex
 	events []e2eEvent
+	t0     time.Time
 }
 
-func newE2ETrace() *e2eTrace { return &e2eTrace{} }
+func newE2ETrace() *e2eTrace { return &e2eTrace{t0: time.Now()} }
 
 // Log appends an event and returns its sequence number.
 func (t *e2eTrace) Log(ev e2eEvent) int {
 	t.mu.Lock()
 	defer t.mu.Unlock()
 	ev.Seq = len(t.events)
+	ev.T = int64(time.Since(t.t0) / time.Microsecond)
 	t.events = append(t.events, ev)
 	return ev.Seq
 }
@@ -79,6 +84,7 @@ func (t *e2eTrace) Log(ev e2eEvent) int {
 // and "append the event" one atomic step).
 func (t *e2eTrace) logLocked(ev e2eEvent) int {
 	ev.Seq = len(t.events)
+	ev.T = int64(time.Since(t.t0) / time.Microsecond)
 	t.events = append(t.events, ev)
 	return ev.Seq
 }
@@ -107,7 +113,7 @@ func (t *e2eTrace) Dump(max int) string {
 
 func (ev e2eEvent) String() string {
 	var sb strings.Builder
-	fmt.Fprintf(&sb, "%04d %s", ev.Seq, ev.Kind)
+	fmt.Fprintf(&sb, "%04d %8.1fms %s", ev.Seq, float64(ev.T)/1000, ev.Kind)
 	switch ev.Kind {
 	case evAgentStart, evAgentStopReq, evAgentStopped:
 		fmt.Fprintf(&sb, " gen=%d", ev.Gen)
@@ -121,7 +127,7 @@ func (ev e2eEvent) String() string {
 		fmt.Fprintf(&sb, " out=%s att=%d %s", ev.Output, ev.Attempt, ev.Note)
 	case evSrvChunk:
 		fmt.Fprintf(&sb, " out=%s att=%d id=%s tag=%s stamps=%v", ev.Output, ev.Attempt, ev.ChunkID, ev.Tag, ev.Stamps)
-	case evSrvAck:
+	case evSrvAck, evSrvAckTry:
 		fmt.Fprintf(&sb, " out=%s att=%d id=%s %s", ev.Output, ev.Attempt, ev.ChunkID, ev.Note)
 	case evDisk:
 		fmt.Fprintf(&sb, " out=%s pipeline=%s id=%s stamps=%v", ev.Output, ev.Pipeline, ev.ChunkID, ev.Stamps)
